@@ -228,3 +228,6 @@ def rule_dispatch(ctx):
 def run(ctx):
     for r in (rule_shortcut, rule_window, rule_cover, rule_nearest, rule_single, rule_dispatch):
         ctx.attempt(r, ctx)
+    # the window is computed from _sub_dir_time_resolution, which the path setter must keep current
+    from .C01 import rule_pathstate
+    ctx.attempt(rule_pathstate, ctx, "C01.pathstate")
